@@ -129,9 +129,9 @@ def run(ctx):
         verdicts = set(o.split(" ")[0] for o in outs)
         mine = lvlib.verdict_class(done[1])
         if done[1] == "ok":
-            bad = sorted(v for v in verdicts if v != "ok")
-            if bad:
-                failures.append((p, "missed_failure", bad[0]))
+            # (whether an execution that WOULD fail is explored at all is C01 / C05 / C10's question, not this
+            # property's: C06 is about what happens once an explored iteration fails)
+            pass
         elif mine in ("branchLimit", "threadLimit"):
             pass        # limits are judged by C19
         elif mine not in verdicts:
